@@ -117,6 +117,11 @@ def run(chk, repo: Repo):
     _r5(chk, repo, base, samplers)
     _r7(chk, repo, base)
     _legacy(chk, repo)
+    chk.rule("C14-R9", "both Gibbs samplers: every sweep is stored once; a continued run resumes from the last stored sample "
+                       "(warm-up column only if no sample was ever stored) [rule bodies shared with C09-R4]", floor=5)
+    from . import c09
+    from .common import shadow
+    shadow(chk, "C09-R4", "C14-R9", lambda c: (c09._hybrid(c, repo), c09._legacy(c, repo)))
 
 
 # ------------------------------------------------------------------------------------------------ R1
